@@ -38,7 +38,8 @@ FILES = ["p1.xml", "p2.xml", "data.bin", "other.bin", "third.bin", "UPPER.BIN", 
 # holds a JPEG and says so in an Override)
 IMAGE_TYPES = ["image/png", "image/jpeg", "image/jpg", "image/gif", "image/tiff", "image/x-png"]
 EXTERNAL = ["http://example.com/x?a=1&b=2", "file:///C:/a b.txt", "../not/a/part", " http://example.com/landing ", "file:///C:/Shared  Docs/x.txt",
-            "http://e.example/a%20b%26c?q=%3Cx%3E", "mailto:a@b.example?subject=100%25", "http://e.example/tab\there"]
+            "http://e.example/a%20b%26c?q=%3Cx%3E", "mailto:a@b.example?subject=100%25", "http://e.example/tab\there",
+            "file:///\\\\server\\share\\x.xlsx", "C:\\docs\\a b.pptx", "..\\up\\one.docx"]   # Windows separators are part of the string
 NEUTRAL = ["application/x-verif-a", "application/x-verif-b", "application/x-verif+xml"]
 RT = "http://example.com/rel/%s"
 
